@@ -45,7 +45,9 @@ let parse_op s =
   | "W" -> [C03ReverseSized (n_of_int (i 1), n_of_int (i 2))]
   | "U" -> [C03SetLocal (z_of_int (i 1), n_of_int (i 2))]
   | "Z" -> [C03SetEq (n_of_int (i 1))]
+  | "z" -> [C03SetEq (n_of_int (i 1))]                        (* the same comparison against an instance with ANOTHER global index type *)
   | "K" -> [C03Cmp (nat_of_int (i 1), nat_of_int (i 2), z_of_int (i 3))]
+  | "r" -> [C03Size]     (* placeholder: resolved against the current state by c03_readd_op when the history is stepped *)
   | _ -> failwith ("bad op " ^ s)
 
 let rec take n l = if n = 0 then [] else match l with [] -> [] | x :: r -> x :: take (n - 1) r
@@ -60,7 +62,8 @@ let () =
       match t with
       | _ :: chk :: ops ->
           let chk = chk <> "0" in
-          let toks = List.map (fun s -> String.sub s 0 1) ops in
+          let toks = ops in
+          let readd_k tok = nat_of_int (int_of_string (List.nth (String.split_on_char ':' tok) 1)) in
           let groups = List.map parse_op ops in
           let ops = List.concat groups in
           let show os =
@@ -75,13 +78,14 @@ let () =
             List.concat (List.map2 (fun tok g ->
               List.map (fun op ->
                 let before = !st in
+                let op = if tok.[0] = 'r' then c03_readd_op before.c03_local (readd_k tok) else op in
                 let (st', o) = c03_step chk legacy before op in
                 st := st';
                 let both a b = let sa = out_str a and sb = out_str b in if sa = sb then sa else "nonconst=" ^ sa ^ ",const=" ^ sb in
                 match op with
                 | C03At g -> both o (c03_at_c legacy before.c03_local g)
                 | C03Get g -> both o (c03_get_c before.c03_local g)
-                | C03Iterate when tok = "J" -> out_str o ^ "/" ^ out_str (c03_lookup_size before.c03_local)
+                | C03Iterate when tok.[0] = 'J' -> out_str o ^ "/" ^ out_str (c03_lookup_size before.c03_local)
                 | _ -> out_str o) g) toks groups) in
           let showm strs =
             let rec go gs os = match gs with
@@ -95,10 +99,11 @@ let () =
             List.concat (List.map2 (fun tok g ->
               List.map (fun op ->
                 let before = !st in
+                let op = if tok.[0] = 'r' then c03_readd_op before.c03s_set (readd_k tok) else op in
                 let (st', o) = c03_spec_step before op in
                 st := st';
                 match op with
-                | C03Iterate when tok = "J" -> out_str o ^ "/" ^ out_str (c03_lookup_size before.c03s_set)
+                | C03Iterate when tok.[0] = 'J' -> out_str o ^ "/" ^ out_str (c03_lookup_size before.c03s_set)
                 | _ -> out_str o) g) toks groups) in
           print_endline (showm m ^ " | " ^ showm ml ^ " | " ^ showm sp)
       | _ -> print_endline "BAD-CASE"
